@@ -406,6 +406,10 @@ class Pipeline:
         if bad_bodyless:
             rec['verdict'] = 'error'; rec['error'] = 'unmodelled extern functions: ' + ', '.join(sorted(bad_bodyless))
             rec['wall_s'] = round(time.time() - t0, 2); return rec
+        nobody = [p['property'] for p in r['props'] if '.no-body.' in p['property'] and p['status'] == 'FAILURE']
+        if nobody:
+            rec['verdict'] = 'error'; rec['error'] = 'unmodelled extern functions are reachable: ' + ', '.join(sorted(set(x.split('.no-body.')[-1] for x in nobody)))
+            rec['wall_s'] = round(time.time() - t0, 2); return rec
         if r['status'] in ('timeout', 'memout'):
             rec['verdict'] = 'undecided'; rec['note'] += ' ' + r['status']
         elif r['status'] == 'success':
